@@ -45,6 +45,8 @@ Definition in_order (R : graph) (m : list (Z * Z)) : list (Z * Z) :=
 Definition prop (k : case) : bool :=
   match k with
   | CRepair jobs _ _ iatoms iedges =>
+      (* keys given to re-added atoms (a key freed by a removal may be used again) *)
+      let rebuilt := flat_map (fun j => filter (fun k0 => negb (zmem k0 (map snd (j_match (rj j))))) (map snd (rj_final j))) jobs in
       forallb (fun j =>
         let J := rj j in
         let m0 := in_order (rj_R j) (swap (j_match J)) in
@@ -69,7 +71,8 @@ Definition prop (k : case) : bool :=
             then forallb (fun n => zmem (n_key n) (map fst (rj_final j))) (j_ref J) else true)
         (* unrecognised atoms are exactly the atoms of the residue outside the match *)
         && forallb (fun k0 => match afind iatoms k0 with
-                              | Some a => Bool.eqb (a_ptm a)
+                              | Some a => (j_req J && negb (zmem k0 (map snd (j_match J))) && zmem k0 rebuilt)   (* removed; the key was used again *)
+                                          || Bool.eqb (a_ptm a)
                                             (match find (fun p => Z.eqb (snd p) k0) (j_match J) with
                                              | Some p => match rfind J (fst p) with Some n => n_ptm n | None => false end   (* atom of a requested modification *)
                                              | None => true end)
